@@ -99,7 +99,7 @@ CHECKS["C06"] = dict(
     level="exploration",
     technique="runtime monitoring: virtual-time (testing/synctest) trace monitor of the real Advertiser behind a fake socket; spacing and bounded-response oracles over bounded-exhaustive trigger histories; race detector pass",
     rule="histories of router solicitations (from :: = multicast trigger, or from a unicast source) injected at exact virtual instants into the real Advertiser; deterministic pass: all histories of ≤3 events (quick) on the 9-point grid of offsets {0,1ms,1.5s,3s−1ms,3s,3s+1ms,4.5s,6s,6s+1ms} from the previous event "
-         "(thorough: ≤4 events on that grid and ≤5 events on the 5-point grid {0,1ms,3s−1ms,3s,3s+1ms}), anchored at the initial RA and at the 16 s periodic tick, plus seeded random bursts of 5–60 events in both periodic regimes with a "
+         "(thorough: ≤5 events on that grid and ≤6 events on the 5-point grid {0,1ms,3s−1ms,3s,3s+1ms}, ≈6 million histories), anchored at the initial RA and at the 16 s periodic tick, plus seeded random bursts of 5–60 events in both periodic regimes with a "
          "re-initialisation inside 1/4 of them; parallel pass (GOMAXPROCS 4, -race): random histories, schedule-insensitive oracles only; non-trivial = two triggers <3 s apart or a trigger <3 s after a transmission; distinct = history",
     exhaustive={"quick": True, "thorough": True},
     assumptions=["testing/synctest fake clock (GODEBUG=asynctimerchan=0); zero injected latency, so the oracle needs no tolerance",
